@@ -11,7 +11,7 @@ MSG, BAN, UNBAN, BLACK, UNBLACK, EXPIRE, DELETE, RATE, CLOSE, OPEN, REKEY, REGIS
 A, B, E = 1, 2, 3          # clients registered by the setup prefix; E's credentials are expired
 UNKNOWN = 9001
 
-KNOWN_KEYS = ("nonsuccess-reinstall", "anon-delete-keeps-credentials")
+KNOWN_KEYS = ("nonsuccess-reinstall", "anon-delete-keeps-credentials", "extractip-generic-addr-keeps-zone")
 
 
 def msg(k, cid, new=0, key=-1, chal=0, tun=0):
@@ -107,6 +107,74 @@ def reban_cases(trials):
     return out
 
 
+def list_edit_cases(rng, thorough):
+    """black-/whitelist ADD and REMOVE on the same key(s) in all orders, then a restart over the same storage: the persisted
+    lists must equal the in-memory ones (blacklist X; whitelist X; unwhitelist X; restart -> X still refused)"""
+    ip = [[BLACK, 0, 1], [UNBLACK, 0], [WHITE, 0, 0], [UNWHITE, 0, 0]]
+    rg = [[BLACKC, 0, 1], [UNBLACKC, 0], [WHITE, 0, 1], [UNWHITE, 0, 1]]
+    tail = [[RESTART, 0], [OPEN, 1, 0], [OPEN, 2, 1], msg(1, 0, new=1), msg(1, A), msg(2, B), msg(2, B, key=-2)]
+    out = []
+    for d in range(1, 5):
+        for seq in itertools.product(ip, repeat=d):
+            out.append(case_of(SETUP2 + [list(x) for x in seq] + tail))
+    both = ip + rg
+    if thorough:
+        for d in range(2, 5):
+            for seq in itertools.product(both, repeat=d):
+                if any(x in rg for x in seq):
+                    out.append(case_of(SETUP2 + [list(x) for x in seq] + tail))
+    else:
+        for d in (2, 3):
+            for seq in itertools.product(rg, repeat=d):
+                out.append(case_of(SETUP2 + [list(x) for x in seq] + tail))
+        for _ in range(250):
+            seq = [rng.choice(both) for _ in range(rng.choice([3, 4, 5, 6]))]
+            mid = [[RESTART, 0]] if rng.random() < 0.3 else []
+            k = rng.randrange(len(seq) + 1)
+            out.append(case_of(SETUP2 + [list(x) for x in seq[:k]] + mid + [list(x) for x in seq[k:]] + tail))
+    return out
+
+
+def shape_cases():
+    """the peer-address dimension: *net.TCPAddr / *net.UDPAddr / generic "host:port" / IPv4-mapped / generic-with-zone, for an IPv4,
+    a global IPv6 and a zone-scoped link-local IPv6 address; the address is gated by an exact entry, a covering range, or a ban"""
+    out = []
+    for fam in (0, 1, 2):
+        for wrap in (0, 1, 2, 3, 4):
+            if wrap == 3 and fam != 0:
+                continue
+            for gate, ungate in (([BLACK, 0, 1], [UNBLACK, 0]), ([BLACKC, 0, 1], [UNBLACKC, 0]), ([BAN, 0], [UNBAN, 0]), ([BLACK, 0, 0], [UNBLACK, 0])):
+                f = {0: fam, 1: 0}
+                out.append(case_of([[REGISTER], [REGISTER], gate, [OPEN, 1, 0, wrap], [OPEN, 2, 1, 0], msg(1, 0, new=1), msg(1, 1), msg(2, 2), msg(2, 2, key=-2),
+                                    ungate, msg(1, 1), msg(1, 1, key=-2)], fam=f))
+                out.append(case_of([[REGISTER], [REGISTER], [OPEN, 1, 0, wrap], msg(1, 1), gate, msg(1, 1, key=-2), msg(1, 0, new=1), [RESTART, 0],
+                                    [OPEN, 1, 0, wrap], msg(1, 0, new=1), msg(1, 1)], slots=(1,), addrs=(0,), fam=f))
+            # failures from this shape must count against the address: five wrong ids, then a correct login is refused
+            out.append(case_of([[REGISTER], [OPEN, 1, 0, wrap], [OPEN, 2, 0, 0]] + [msg(1, UNKNOWN)] * 5 + [msg(2, 1), msg(1, 0, new=1)],
+                               addrs=(0,), fam={0: fam}))
+    return out
+
+
+def overlap_cases():
+    """two connections of ONE address around the gate: a handshake passes its gate checks, the failures (or an operator ban) of the
+    other connection complete, then the first handshake completes (legitimately).  The ban must be in place afterwards."""
+    two = [[REGISTER], [REGISTER], [REGISTER], [EXPIRE, E], [OPEN, 1, 0], [OPEN, 2, 0]]
+    after = [msg(2, 0, new=1), msg(1, A), msg(2, B), msg(1, 0, new=1, tun=1), [UNBAN, 0], msg(2, B), msg(2, B, key=-2)]
+    out = []
+    for nfail_before, inner in ((4, [msg(2, UNKNOWN)]), (3, [msg(2, UNKNOWN), msg(2, A, key=0)]), (4, [msg(2, B, key=0)]),
+                                (0, [[BAN, 0]]), (0, [[BLACK, 0, 1]]), (2, [msg(2, UNKNOWN), [BAN, 0]])):
+        pre = [msg(2, UNKNOWN)] * nfail_before
+        # the overlapped handshake is a valid phase 2 / a first connection / a valid phase 2 with connection_type tunnel / a wrong response
+        for first, over in (([msg(1, A)], msg(1, A, key=-2)), ([], msg(1, 0, new=1)), ([msg(1, A, tun=1)], msg(1, A, key=-2, tun=1)),
+                            ([msg(1, A)], msg(1, A, key=0))):
+            out.append(case_of(two + first + pre + [[OVERLAP, len(inner)], over] + [list(x) for x in inner] + after, addrs=(0,)))
+    # already banned when it starts: the gate refuses it, the other ops simply follow
+    out.append(case_of(two + [msg(1, A), [BAN, 0], [OVERLAP, 1], msg(1, A, key=-2), msg(2, UNKNOWN)] + after, addrs=(0,)))
+    # connections of two different addresses: the ban of one does not concern the other
+    out.append(case_of(SETUP2 + [msg(1, A)] + [msg(2, UNKNOWN)] * 4 + [[OVERLAP, 1], msg(1, A, key=-2), msg(2, UNKNOWN), msg(2, B), msg(1, A), msg(1, A, key=-2)]))
+    return out
+
+
 def restart_cases():
     """blacklist entries of every form (exact IP / CIDR, 1 h / permanent) must still gate after a restart over the same
     storage; lapsed short-lived entries must not come back; bans and failure counts are in memory only"""
@@ -156,8 +224,10 @@ def random_case(rng, nconn=3, naddr=2, length=None):
     """mostly-valid flows (phase 1 then a response to it) interleaved with administrative events and noise"""
     ops = [[REGISTER], [REGISTER], [REGISTER], [EXPIRE, E]]
     addr_of = {k: rng.randrange(naddr) for k in range(1, nconn + 1)}
+    fam = {a: rng.choice([0, 0, 1, 2]) for a in range(naddr)}
+    shape = lambda a: rng.choice([0, 1, 2, 3] if fam[a] == 0 else [0, 1, 2])
     for k in range(1, nconn + 1):
-        ops.append([OPEN, k, addr_of[k]])
+        ops.append([OPEN, k, addr_of[k], shape(addr_of[k])])
     n = length or rng.choice([5, 8, 10, 12, 14, 16])
     ncli = 3
     gone = set()
@@ -196,7 +266,8 @@ def random_case(rng, nconn=3, naddr=2, length=None):
             ops.append([RESTART, rng.choice([0, 0, 0, 1, 2])])
             for kk in range(1, nconn + 1):
                 if rng.random() < 0.8:
-                    ops.append([OPEN, kk, rng.randrange(naddr)])
+                    a = rng.randrange(naddr)
+                    ops.append([OPEN, kk, a, shape(a)])
         elif r < 0.78:
             x = rng.choice(live)
             if x not in gone:
@@ -232,13 +303,16 @@ def random_case(rng, nconn=3, naddr=2, length=None):
             ops.append([RATE, rng.randrange(2)])
         elif r < 0.95:
             ops.append([CLOSE, k])
+        elif r < 0.97:
+            a = rng.randrange(naddr)
+            ops.append([OPEN, k, a, shape(a)])
         elif r < 0.98:
-            ops.append([OPEN, k, rng.randrange(naddr)])
+            ops.append([rng.choice([WHITE, UNWHITE]), rng.randrange(naddr), rng.randrange(2)])
         else:
             ops.append([BADJSON, k])
     # a first connection after the server lost count is not generated: ncli tracks only an upper bound, and the harness
     # resolves indices against the clients that really exist
-    return case_of(ops, slots=tuple(range(1, nconn + 1)), addrs=tuple(range(naddr)))
+    return case_of(ops, slots=tuple(range(1, nconn + 1)), addrs=tuple(range(naddr)), fam=fam)
 
 
 def lockout_case(rng):
@@ -323,13 +397,28 @@ def case_value(case, out, variant):
             seq.append((i, False))
             i += 1
     evs, obs = [], []
+    # the session layer registers the (unauthenticated) ControlConnection of an in-flight handshake when it begins; the model does
+    # so when it completes (EBody).  While the overlapping ops run, that one flag of the in-flight connection is taken as it was.
+    inflight = {}
+    i = 0
+    while i < len(ops):
+        if ops[i][0] == OVERLAP and steps[i + 1].get("h"):
+            slot = case["slots"].index(ops[i + 1][1]) if ops[i + 1][1] in case["slots"] else None
+            for j in range(i + 2, min(i + 2 + ops[i][1], len(ops))):
+                inflight[j] = (slot, steps[i]["c"][slot] if slot is not None else None)
+        i += 1
     for j, body in seq:
         e = enc_ev(ops[j], steps[j])
         if body:
             e = [BODY] + e[1:]
         evs.append(e)
         s = steps[j]
-        obs.append([s["o"][0], s["o"][1], s["o"][2], [list(c) for c in s["c"]], s["i"], s["b"], s["k"], s["f"], s["n"]])
+        cs = [list(c) for c in s["c"]]
+        if j in inflight and inflight[j][0] is not None:
+            slot, before = inflight[j]
+            if before[1] == 0 and cs[slot][1:] == [1, 0, 0, 0]:
+                cs[slot] = list(before)
+        obs.append([s["o"][0], s["o"][1], s["o"][2], cs, s["i"], s["b"], s["k"], s["f"], s["n"]])
     return [list(variant), case["slots"], case["addrs"], evs, obs]
 
 
@@ -345,7 +434,7 @@ def shrink(binary, case, key):
     for _ in range(60):
         changed = False
         for i in range(len(cur["ops"]) - 1, nset - 1, -1):
-            if cur["ops"][i][0] in (REGISTER, OPEN, CORRUPT, BANLAPSE, LAND):
+            if cur["ops"][i][0] in (REGISTER, OPEN, CORRUPT, BANLAPSE, LAND, OVERLAP) or (i > 0 and cur["ops"][i - 1][0] == OVERLAP):
                 continue
             t = dict(cur, ops=cur["ops"][:i] + cur["ops"][i + 1:])
             if fails(t):
@@ -409,6 +498,9 @@ def run(ctx, only_cases=None):
         cases += [lockout_case(rng) for _ in range(40 if thorough else 10)]
         cases += restart_cases()
         cases += record_cases(thorough)
+        cases += list_edit_cases(rng, thorough)
+        cases += shape_cases()
+        cases += overlap_cases()
         cases += reban_cases(12 if thorough else 4)
     outs = run_parallel(binary, cases)
 
@@ -466,7 +558,7 @@ def run(ctx, only_cases=None):
     for c in cases:
         for op in c["ops"]:
             kinds[op[0]] = kinds.get(op[0], 0) + 1
-    names = ["msg", "ban", "unban", "blacklist", "unblacklist", "expire", "delete", "rate", "close", "open", "rekey", "register", "badjson", "delete_anonymous", "corrupt_stored_credential", "restart", "blacklist_cidr", "unblacklist_cidr", "ban_lapse", "async_unban_lands", "set_record"]
+    names = ["msg", "ban", "unban", "blacklist", "unblacklist", "expire", "delete", "rate", "close", "open", "rekey", "register", "badjson", "delete_anonymous", "corrupt_stored_credential", "restart", "blacklist_cidr", "unblacklist_cidr", "ban_lapse", "async_unban_lands", "set_record", "whitelist", "unwhitelist", "body", "overlap"]
     ctx.coverage.update({
         "evaluations": len(cases), "distinct_nontrivial": len(nontrivial),
         "exhaustive": bool(exhaustive),
@@ -497,6 +589,9 @@ def run(ctx, only_cases=None):
         "a ControlConnection object is identified with its connection id while registered (harness compares object identity)",
         "the asynchronous unbanIfExpired goroutine is steered with GOMAXPROCS(1) between the lapse and the landing (no hook in /repo): the order "
         "'re-ban before landing' is then the usual but not a guaranteed schedule; both orders are legal and the model (landing = no-op) covers both",
+        "overlapping handshakes: the model has EMsg (gates + body, atomic) and EBody (body of a handshake that passed the gates earlier); the real overlap is "
+        "produced with a hook in CloudControlAPI.GetClientConfig / GenerateAnonymousCredentials of a wrapper around the real cloud control handed to the real "
+        "ServerAuthHandler (the lookups the handler makes right after the gate checks); finer interleavings inside the body are not modelled",
         "restart = every server component rebuilt over the same storage (new fixture: IPManager, BruteForceProtector, RateLimiter, SessionManager, "
         "cloud control, SecretKeyManager with the same master key): persistent = client configs and the IP black/white lists (ip_manager_storage.go); "
         "in memory only = connections, registry, pending challenges, rate-limiter buckets and the brute-force failure records AND bans "
